@@ -25,6 +25,7 @@ from sim.props.ahbcommon import (
     second_validation,
     shrink_validation,
     summarise_validation,
+    widen,
 )
 from sim.props.common import (
     LIVENESS_ERRORS,
@@ -127,6 +128,8 @@ def generate(seed, tier="quick"):
             segments = [n for n, _ in walk(ahb) if n["t"] == "s"]
             if segments:
                 ahb = {"lines": [rnd.choice(segments)]}
+    if rnd.random() < 0.06 and entry == "deep":
+        ahb = widen(rnd, ahb, pool)
     profile = rnd.choice([p for p in PROFILES if p != "zero"] * 3 + ["zero"])
     request = {"rid": "r0", "cer": cer, "op": {"entry": entry, "ahb": ahb, "soll": rnd.random() < 0.5}}
     requests = [request]
